@@ -201,6 +201,12 @@ FracPool == {<<>>, <<5>>, <<0>>, <<2, 5>>, <<1, 2, 5>>, <<0, 0, 0>>, <<9, 9, 9>>
 Zone(form, off) == [form |-> form, off |-> off]
 ZonePool == {Zone("none", 0), Zone("Z", 0), Zone("num", 0), Zone("num", 120), Zone("num", -480), Zone("num", 330),
              Zone("num", 840), Zone("num", -720)}
+(* further offsets: negative with a minute part (-03:30, -09:30, -00:30), +00:30, quarter hours (+05:45, +12:45);  *)
+(* crossed with a reduced date/time pool in the quick tier, with the full pools in the thorough tier                *)
+ExtraOffsets == {-210, -570, -30, 30, 345, 765}
+ZoneExtra == {Zone("num", o) : o \in ExtraOffsets}
+XDates == IF NarrowWide THEN DatePool ELSE {<<2020, 2, 29>>, <<9999, 12, 31>>}
+XTimes == IF NarrowWide THEN TimePool ELSE {<<0, 0, 0>>, <<23, 59, 59>>}
 NumZoneText(off) ==
   LET a == IF off < 0 THEN 0 - off ELSE off
   IN <<IF off < 0 THEN cMinus ELSE cPlus>> \o D2(a \div 60) \o <<cColon>> \o D2(a % 60)
@@ -235,6 +241,8 @@ TemporalDescs ==
   \cup {[k |-> "time", p |-> 0, dt |-> <<1, 1, 1>>, tp |-> 6, tm |-> t, f |-> f, z |-> NoZone] : t \in TimePool, f \in FracPool}
   \cup {[k |-> "dt", p |-> 3, dt |-> d, tp |-> tp, tm |-> t, f |-> <<>>, z |-> z] : d \in DatePool, tp \in 4..5, t \in TimePool, z \in ZonePool}
   \cup {[k |-> "dt", p |-> 3, dt |-> d, tp |-> 6, tm |-> t, f |-> f, z |-> z] : d \in DatePool, t \in TimePool, f \in FracPool, z \in ZonePool}
+  \cup {[k |-> "dt", p |-> 3, dt |-> d, tp |-> tp, tm |-> t, f |-> <<>>, z |-> z] : d \in XDates, tp \in 4..5, t \in XTimes, z \in ZoneExtra}
+  \cup {[k |-> "dt", p |-> 3, dt |-> d, tp |-> 6, tm |-> t, f |-> f, z |-> z] : d \in XDates, t \in XTimes, f \in FracPool, z \in ZoneExtra}
 
 RandTemporalDesc(seed, k) ==
   LET r == Stream(SeedOf(seed, 3, k), 20)
@@ -312,6 +320,7 @@ JTemporal(o) ==
 (* ("Z", "UTC", "" or "num" = (+|-)hh:mm), off the offset in minutes.       *)
 TzPool == {[tzs |-> "Z", off |-> 0], [tzs |-> "UTC", off |-> 0], [tzs |-> "", off |-> 0], [tzs |-> "num", off |-> 0],
            [tzs |-> "num", off |-> 120], [tzs |-> "num", off |-> -480], [tzs |-> "num", off |-> 330]}
+TzExtra == {[tzs |-> "num", off |-> o] : o \in ExtraOffsets \cup {840, -720}}
 UsFor(prec) == CASE prec = "MILLISECOND" -> {0, 500000, 123000} [] prec = "MICROSECOND" -> {0, 500000, 123000, 123456, 1}
                  [] OTHER -> {0}
 El(ek, prec, d, t, us, z) ==
@@ -326,6 +335,10 @@ Elements ==
   \cup UNION {{El(ek, pr, d, t, us, z) : d \in DatePool, t \in TimePool, us \in UsFor(pr), z \in TzPool}
                : ek \in {"DateTime", "Instant"}, pr \in {"SECOND", "MILLISECOND", "MICROSECOND"}}
   \cup UNION {{El("Time", pr, <<1970, 1, 1>>, t, us, NoTz) : t \in TimePool, us \in UsFor(pr)} : pr \in TimeProtoPrecs}
+  \cup {El("Date", pr, d, <<0, 0, 0>>, 0, z) : pr \in DateProtoPrecs, d \in XDates, z \in TzExtra}
+  \cup {El("DateTime", pr, d, <<0, 0, 0>>, 0, z) : pr \in {"YEAR", "MONTH", "DAY"}, d \in XDates, z \in TzExtra}
+  \cup UNION {{El(ek, pr, d, t, us, z) : d \in XDates, t \in XTimes, us \in UsFor(pr), z \in TzExtra}
+               : ek \in {"DateTime", "Instant"}, pr \in {"SECOND", "MILLISECOND", "MICROSECOND"}}
 
 ElId(el) == el.ek \o "." \o el.prec \o "." \o ToString(el.y) \o "-" \o ToString(el.mo) \o "-" \o ToString(el.d) \o "T" \o ToString(el.h)
             \o "." \o ToString(el.mi) \o "." \o ToString(el.sec) \o "." \o ToString(el.us) \o el.tzs \o ToString(el.off)
